@@ -22,6 +22,8 @@ MANIFEST = {
     "note": "Trusted: mc/refgeom.py. Finite cut-off grid and two metrics at fixed anchors below 60 degrees latitude.",
     "technique": "bounded-exhaustive enumeration of inputs x configurations x metrics with a geometric reference model on every path state",
 }
+MANIFEST["text"] += " " + (
+    'Added after the seeding waves: the planar metric at two more magnitudes (coordinates x 2^-16 and x 2^23), kilometre-scale edges at 59.9N, and a matcher object re-used for another trace after a widening / extension (the initial radius must hold around the NEW first observation).')
 BUDGET = {"quick": 420, "thorough": 3000}
 RULE = ("states = path states checked, transitions = (state, cut-off/position clause) checks, traces validated = best paths checked; "
         "non-trivial = a finite cut-off is configured and the path is non-empty, or the metric is latitude-longitude; outcomes = (index, path shape).")
